@@ -176,8 +176,9 @@ def routeOnce (cfg : ExecCfg) (method : Bytes) (hasRetry : Bool)
   match (copy.bind fun x => cfg.build x.1.internal) with
   | some e => (st, .done (buildErrRes e))
   | none =>
-    -- body buffering (proxy.go:200-216): two targets, or a retryable method
-    if (main.isSome && copy.isSome) || decide (method ≠ cfg.excluded) then
+    -- body buffering (proxy.go:200-216): two targets, a retryable method, or a retry_rule (the
+    -- fallback must be able to send the body again)
+    if (main.isSome && copy.isSome) || decide (method ≠ cfg.excluded) || hasRetry then
       let src := BodySrc.buffered st.remaining
       let st0 : ExecState := { st with remaining := [] }
       mainStage cfg method hasRetry mainHost (main.bind (·.2.2)) src (copyStage cfg method hasRetry copyHost src st0)
@@ -202,17 +203,18 @@ def routeRequest (cfg : ExecCfg) (q : Query) (method : Bytes) :
     | (st, .answered e idx) =>
       if cfg.isRedirect e.status ∧ ¬ cfg.locationOk e.headers then (st, .plainError) else (st, .response e idx)
     | (st, .unreachable) => (st, .userError 502 b!"Destination unreachable")
-  | rr :: rest, main, copy, st =>
-    match routeOnce cfg method true main copy st with
+  | rr :: rest, main, copy, st0 =>
+    match routeOnce cfg method true main copy st0 with
     | (st, .done r) => (st, r)
     | (st, .answered e idx) =>
       -- a redirect whose Location does not parse is an error (proxy.go:232-240)
       if cfg.isRedirect e.status ∧ ¬ cfg.locationOk e.headers then (st, .plainError)
       else if cfg.is4xx e.status then
-        -- fallback: recurse with the SAME request (its body already consumed)
-        routeRequest cfg q method rest (fallbackMatch q method rr) none st
+        -- fallback: recurse with the same request, its body re-armed from the buffered bytes
+        routeRequest cfg q method rest (fallbackMatch q method rr) none { st with remaining := st0.remaining }
       else (st, .response e idx)
-    | (st, .unreachable) => routeRequest cfg q method rest (fallbackMatch q method rr) none st
+    | (st, .unreachable) =>
+      routeRequest cfg q method rest (fallbackMatch q method rr) none { st with remaining := st0.remaining }
 
 /-- client view at the wire -/
 structure View where
